@@ -160,6 +160,19 @@ def gen_ops(rng, sc, length, kinds):
     xobj_inst = []     # executor objects created so far: the instance each belongs to
     n = sc["n"]
     setups = [i for i, s in enumerate(sc["specs"]) if s["setup"]]
+    if "cache" in kinds and "xmk" in kinds and rng.random() < 0.25:
+        # directed: a partial caching run writes a shared path; a restart object is BUILT on it; the instance then changes
+        # (setup / call); the object is CALLED afterwards: it starts from the DAG's results of that moment + the file
+        a0 = rng.choice([(1,), (2, 3), (5, 6)])
+        ops.append(dict(op="cache", inst=0, mode=rng.choice(["target", "deps", "deps"]),
+                        T=sorted(rng.sample(range(n), rng.randint(1, min(2, n)))), args=a0,
+                        restart=rng.choice(["same", "whole"]), omit_default=rng.random() < 0.5, slot=0))
+        ops.append(dict(op="xmk", inst=0, T=None if rng.random() < 0.5 else sorted(rng.sample(range(n), rng.randint(1, min(3, n)))),
+                        xid=0, from_slot=0))
+        xobj_inst.append(0)
+        ops.append(rng.choice([dict(op="setup", inst=0, T=None), dict(op="call", inst=0, args=a0),
+                               dict(op="setup", inst=0, T=sorted(rng.sample(range(n), 1)))]))
+        ops.append(dict(op="xrun", inst=0, xid=0, args=a0))
     for _ in range(length):
         k = rng.choice(kinds)
         inst = rng.randrange(ninst)
@@ -169,7 +182,8 @@ def gen_ops(rng, sc, length, kinds):
         if k == "xmk":
             # an executor object is built now and run LATER (other operations on the instance come in between)
             T = None if rng.random() < 0.4 else sorted(rng.sample(range(n), rng.randint(1, min(3, n))))
-            ops.append(dict(op="xmk", inst=inst, T=T, xid=len(xobj_inst)))
+            ops.append(dict(op="xmk", inst=inst, T=T, xid=len(xobj_inst),
+                            from_slot=rng.choice([None, None, 0, 1])))   # from_cache = a file written earlier in this history
             xobj_inst.append(inst)
         elif k == "xrun":
             xid = rng.randrange(len(xobj_inst))
@@ -275,6 +289,7 @@ def run_history(sc, ops):
     records, lines = [], []
     setups = [i for i, s in enumerate(sc["specs"]) if s["setup"]]
     execs = {}
+    ok_slots = set()      # shared cache paths written by a successful caching run of THIS history
     for op in ops:
         inst = op["inst"]
         d = I.dags[inst]
@@ -318,9 +333,16 @@ def run_history(sc, ops):
         elif op["op"] == "xmk":
             T = op["T"]
             sel = list(range(n)) if T is None else anc_closure(sc, T)
-            execs[op["xid"]] = (d.executor(target_nodes=None if T is None else ids(T)), T)
+            fs_ = op.get("from_slot")
+            if fs_ is not None and fs_ in ok_slots:
+                # restart object: the file is read when the object is CALLED, together with the DAG's results of that moment
+                execs[op["xid"]] = (d.executor(target_nodes=None if T is None else ids(T), from_cache=cache_slot(fs_)), T)
+                extra = " C %d" % fs_
+            else:
+                execs[op["xid"]] = (d.executor(target_nodes=None if T is None else ids(T)), T)
+                extra = ""
             rec["out"] = ("NOOP",)
-            lines.append("O %d xmk %d %d %s" % (inst, op["xid"], len(sel), " ".join(map(str, sel))))
+            lines.append("O %d xmk %d %d %s%s" % (inst, op["xid"], len(sel), " ".join(map(str, sel)), extra))
             records.append(rec)
             continue
         elif op["op"] == "xrun":
@@ -422,6 +444,8 @@ def run_history(sc, ops):
                 records.append(rec)
                 if rec["out"][0] != "OK":
                     continue
+                if slot is not None:
+                    ok_slots.add(slot)
                 with open(path, "rb") as f:
                     content = pickle.load(f)   # noqa: S301
                 cached_keys = set(content.keys())
